@@ -219,9 +219,11 @@ Proof.
     assert (Hdays : Forall day_ok (b_days b)).
     { unfold b. destruct (bc_close cfg); [apply builder_touch_ok|]; exact Hb. }
     unfold run_stage in Er.
-    destruct (process_days (check_proc (bc_lenient cfg)) check_init (b_days b)) as [[s1 d1]| |] eqn:E1; try discriminate.
+    destruct (process_days (check_proc_current (bc_lenient cfg)) check_init (b_days b)) as [[s1 d1]| |] eqn:E1; try discriminate.
     cbn [cbind of_presult fst snd] in Er.
-    pose proof (check_stage_ok _ _ _ _ _ Hdays E1) as Hd1.
+    assert (Hd1 : Forall day_ok d1).
+    { unfold check_proc_current in E1. destruct (bc_lenient cfg);
+        [eapply check_fixed_stage_ok; eauto|eapply check_stage_ok; eauto]. }
     assert (Hval : exists d3, Forall day_ok d3 /\
       cbind (cbind (of_presult (process_days (filter_proc (span part0)) tt d3)) (fun r4 =>
              cbind (if bc_close cfg then cbind (of_presult (process_days (close_proc (start_dates part0)) (mkClose [] []) (snd r4))) (fun r5 => COk (snd r5)) else COk (snd r4)) (fun days =>
